@@ -323,7 +323,14 @@ fn judge(out: &mut Out, rng: &mut Rng, cell: &Cell, c: &Compiled, code_sig: Opti
             named_present.insert(name.clone());
             if name.starts_with("lambda_$_") {
                 if let Some(at) = c.symbols.get(&format!("{k}_arguments")) {
-                    let recorded = text_v(&strip_gensym(at));
+                    // the optimising dialects may add captures of their own (cse_$_N): those are dropped before comparing
+                    let recorded = text_v(&strip_gensym(at)).map(|v| match v {
+                        V::P(caps, params) => {
+                            let kept: Vec<V> = caps.proper_list().unwrap_or_default().into_iter().filter(|c| *c != V::atom(b"cse")).collect();
+                            V::cons(V::list(&kept), (*params).clone())
+                        }
+                        other => other,
+                    });
                     let mut lambdas = vec![];
                     program_lambdas(&case.prog, &mut lambdas);
                     out.count("lambda_argument_lists_compared");
@@ -427,9 +434,10 @@ fn judge(out: &mut Out, rng: &mut Rng, cell: &Cell, c: &Compiled, code_sig: Opti
                     ok = false;
                     out.violation(json!({"kind":"code_under_the_entry_does_not_compute_the_named_function","engine":"c13","sig":code_sig,"case":case.j(d),"build":cell.build,"function":name,"key":k,"args":args.show(),"source_gives":w.show(),"extracted_code_gives":g.show(),"code":trunc(&code.show(),300)}));
                 }
-                (RefOutcome::Fail(m), g) => {
-                    ok = false;
-                    out.violation(json!({"kind":"code_under_the_entry_returns_where_the_named_function_fails","engine":"c13","sig":code_sig,"case":case.j(d),"build":cell.build,"function":name,"key":k,"args":args.show(),"source_fails":m,"extracted_code_gives":g.show()}));
+                (RefOutcome::Fail(_), _) => {
+                    // as in C01: where the source function fails nothing is claimed (optimising dialects drop unused
+                    // bindings whose evaluation would fail)
+                    out.count("source_function_fails_not_compared");
                 }
                 _ => out.count("reference_opaque"),
             }
